@@ -26,6 +26,7 @@ type SolverStats struct {
 	CrossAgree    int `json:"second_solver_agrees"`
 	CrossDisagree int `json:"second_solver_disagrees"`
 	CrossUnknown  int `json:"second_solver_unknown"`
+	Retried       int `json:"assertion_queries_retried_with_longer_timeout"`
 }
 
 func (a *SolverStats) add(b SolverStats) {
@@ -40,6 +41,7 @@ func (a *SolverStats) add(b SolverStats) {
 	a.CrossAgree += b.CrossAgree
 	a.CrossDisagree += b.CrossDisagree
 	a.CrossUnknown += b.CrossUnknown
+	a.Retried += b.Retried
 }
 
 type Solver struct {
@@ -61,6 +63,7 @@ type Solver struct {
 	dom       *byteDom // small-domain shortcut for single-byte queries (bytedom.go)
 	preHook   func()   // run before every Assert/Check (model_zz_grpa_scaled.go)
 	desync    bool     // (shadow solver only) restarted mid-path: ignore until the next PathBegin (shadowtimeout.go)
+	retryUnknown bool  // set around the re-check of an assertion: an unknown verdict is retried with 4x the timeout
 	tactic    string   // option solver_bv_tactic: try (check-sat-using …) first (solver_tactic.go)
 }
 
@@ -350,6 +353,31 @@ func (s *Solver) Check(extra *Term, wantModel bool) (string, *Model) {
 	}
 	if res == "timeout" {
 		res = "unknown"
+	}
+	if res == "unknown" && s.retryUnknown && !strings.Contains(s.bin, "cvc5") {
+		// The timeout is wall-clock: on a loaded machine a query that needs a
+		// few seconds can time out. One more attempt in the same frame with four
+		// times the budget before the verdict "unknown" is final.
+		s.stats.Retried++
+		s.send(fmt.Sprintf("(set-option :timeout %d)", 4*s.timeoutMs))
+		s.send("(check-sat)")
+		for {
+			line, err := s.readLine()
+			if err != nil {
+				s.stats.Errors++
+				s.lastErr = "solver died: " + err.Error()
+				s.stats.Seconds += time.Since(t0).Seconds()
+				return "dead", nil
+			}
+			if line == "sat" || line == "unsat" {
+				res = line
+				break
+			}
+			if line == "unknown" || line == "timeout" || strings.HasPrefix(line, "(error") {
+				break
+			}
+		}
+		s.send(fmt.Sprintf("(set-option :timeout %d)", s.timeoutMs))
 	}
 	var mo *Model
 	if res == "sat" && wantModel {
